@@ -2066,18 +2066,18 @@ theorem unique_parent {h : Heap} {rank : Addr → Nat} (hr : h.RankedBy rank) :
           exact hs r cr (.refl _) hgr i0 j0 k0 k0' hi0 hj0 hij k (hk0a.trans (.step hga hka (.refl _)))
             (hk0a'.trans (.step hga' hka' (.refl _))) hk
 
-/-- DEEP DETACHMENT: below `root` (a tree), the container `x` gets a new children map in which the
-    member that held `y` is gone or replaced by nodes that share no container / list with `y`:
-    afterwards `root` and `y` share no container / list -/
-theorem write_detaches_deep {h : Heap} {rank : Addr → Nat} (hr : h.RankedBy rank) {root x y : Addr}
-    (hs : SibSep h root) (hrx : Reach h root x) {kvs kvs' : AMap Addr} (hg : h.get? x = some (.cont kvs))
-    {name : String} (hy : AMap.get? kvs name = some y)
-    (hk : ∀ p ∈ kvs', (p ∈ kvs ∧ p.1 ≠ name) ∨ (Apart h p.2 y ∧ ¬ Reach h p.2 x)) :
-    Apart (h.write x (.cont kvs')) root y := by
-  have hyk : y ∈ (Cell.cont kvs).kids := mem_kids_of_get? hy
+/-- DEEP DETACHMENT: below `root` (a tree), the cell `x` is rewritten so that the slot `sy` that held
+    `y` is gone or holds something else: every child of the new cell is an old child from ANOTHER slot,
+    or a node that shares no container / list with `y` and does not reach `x`.  Afterwards `root` and `y`
+    share no container / list. -/
+theorem cell_write_detaches_deep {h : Heap} {rank : Addr → Nat} (hr : h.RankedBy rank) {root x y : Addr}
+    (hs : SibSep h root) (hrx : Reach h root x) {cx cx' : Cell} (hg : h.get? x = some cx)
+    {sy : Nat} (hsy : cx.kids[sy]? = some y)
+    (hk : ∀ k ∈ cx'.kids, (∃ (j : Nat), j ≠ sy ∧ cx.kids[j]? = some k) ∨ (Apart h k y ∧ ¬ Reach h k x)) :
+    Apart (h.write x cx') root y := by
+  have hyk : y ∈ cx.kids := List.mem_of_getElem? hsy
   have hyx : ¬ Reach h y x := fun hr' => not_reach_parent hr hg hyk hr' rfl
   have hxlt := get?_lt hg
-  obtain ⟨sy, hsy⟩ := List.getElem?_of_mem hyk
   intro b hrb hyb hcomp
   have hyb' : Reach h y b := (reach_write_frame _ hyx).mp hyb
   have hbx : b ≠ x := fun e => hyx (e ▸ hyb')
@@ -2085,28 +2085,22 @@ theorem write_detaches_deep {h : Heap} {rank : Addr → Nat} (hr : h.RankedBy ra
     obtain ⟨cell, hgb, hl⟩ := hcomp
     rw [get?_write_ne h _ hbx] at hgb
     exact ⟨cell, hgb, hl⟩
-  -- every cell reachable from the root afterwards is: reachable before or below a new member, and
+  -- every cell reachable from the root afterwards is: reachable before or below a new child, and
   -- no container / list below `y`
   let S : Addr → Prop := fun a =>
-    (Reach h root a ∨ ∃ p ∈ kvs', (Apart h p.2 y ∧ ¬ Reach h p.2 x) ∧ Reach h p.2 a) ∧ ¬ (Reach h y a ∧ Composite h a)
-  have hroot : S root := by
-    refine ⟨Or.inl (.refl _), fun hh => ?_⟩
-    -- y ⇝ root ⇝ x : y would reach x
-    exact hyx (hh.1.trans hrx)
-  have hclosed : ∀ a cell, S a → (h.write x (.cont kvs')).get? a = some cell → ∀ k ∈ cell.kids, S k := by
+    (Reach h root a ∨ ∃ k ∈ cx'.kids, (Apart h k y ∧ ¬ Reach h k x) ∧ Reach h k a) ∧ ¬ (Reach h y a ∧ Composite h a)
+  have hroot : S root := ⟨Or.inl (.refl _), fun hh => hyx (hh.1.trans hrx)⟩
+  have hclosed : ∀ a cell, S a → (h.write x cx').get? a = some cell → ∀ k ∈ cell.kids, S k := by
     intro a cell hSa hga k hkm
     by_cases hax : a = x
     · subst hax
       rw [get?_write_self h _ hxlt] at hga
       cases Option.some.inj hga
-      simp only [Cell.kids, List.mem_map] at hkm
-      obtain ⟨p, hp, rfl⟩ := hkm
-      rcases hk p hp with ⟨hpk, hpn⟩ | hnew
-      · refine ⟨Or.inl (hrx.trans (.step hg (by simp only [Cell.kids, List.mem_map]; exact ⟨p, hpk, rfl⟩) (.refl _))), ?_⟩
+      rcases hk k hkm with ⟨j, hj, hjk⟩ | hnew
+      · refine ⟨Or.inl (hrx.trans (.step hg (List.mem_of_getElem? hjk) (.refl _))), ?_⟩
         intro hh
-        obtain ⟨i, j, hij, hi, hj⟩ := kids_indices (k1 := p.1) (a1 := p.2) hpk (AMap.mem_of_get? hy) hpn
-        exact hs a _ hrx hg i j p.2 y hi hj hij p.2 (.refl _) hh.1 hh.2
-      · exact ⟨Or.inr ⟨p, hp, hnew, .refl _⟩, fun hh => hnew.1 p.2 (.refl _) hh.1 hh.2⟩
+        exact hs a _ hrx hg j sy k y hjk hsy hj k (.refl _) hh.1 hh.2
+      · exact ⟨Or.inr ⟨k, hkm, hnew, .refl _⟩, fun hh => hnew.1 k (.refl _) hh.1 hh.2⟩
     · rw [get?_write_ne h _ hax] at hga
       obtain ⟨hside, hnot⟩ := hSa
       refine ⟨?_, fun hh => ?_⟩
@@ -2119,7 +2113,7 @@ theorem write_detaches_deep {h : Heap} {rank : Addr → Nat} (hr : h.RankedBy ra
           rcases reach_last hh.1 with e | ⟨pp, cp, hypp, hgpp, hkpp⟩
           · -- k = y: its one parent is x
             subst e
-            have := (unique_parent hr (rank root) root (Nat.le_refl _) hs a x k cell (.cont kvs) ia sy hside hrx hga hg
+            have := (unique_parent hr (rank root) root (Nat.le_refl _) hs a x k cell cx ia sy hside hrx hga hg
               hia hsy hh.2).1
             exact hax this
           · -- k ≠ y: its one parent lies below y
@@ -2136,6 +2130,72 @@ theorem write_detaches_deep {h : Heap} {rank : Addr → Nat} (hr : h.RankedBy ra
         · exact hnew.1 k (hpa.trans (.step hga hkm (.refl _))) hh.1 hh.2
   have hSb : S b := Reach.closed_set S hclosed hrb hroot
   exact hSb.2 ⟨hyb', hcomp'⟩
+
+/-- … for a container whose member `name` (which held `y`) is erased or overwritten -/
+theorem write_detaches_deep {h : Heap} {rank : Addr → Nat} (hr : h.RankedBy rank) {root x y : Addr}
+    (hs : SibSep h root) (hrx : Reach h root x) {kvs kvs' : AMap Addr} (hg : h.get? x = some (.cont kvs))
+    {name : String} (hy : AMap.get? kvs name = some y)
+    (hk : ∀ p ∈ kvs', (p ∈ kvs ∧ p.1 ≠ name) ∨ (Apart h p.2 y ∧ ¬ Reach h p.2 x)) :
+    Apart (h.write x (.cont kvs')) root y := by
+  obtain ⟨sy, hsy⟩ := List.getElem?_of_mem (AMap.mem_of_get? hy)
+  refine cell_write_detaches_deep (sy := sy) hr hs hrx hg (by simp [Cell.kids, List.getElem?_map, hsy]) ?_
+  intro k hkm
+  simp only [Cell.kids, List.mem_map] at hkm
+  obtain ⟨p, hp, rfl⟩ := hkm
+  rcases hk p hp with ⟨hpk, hpn⟩ | hnew
+  · left
+    obtain ⟨ip, hip⟩ := List.getElem?_of_mem hpk
+    refine ⟨ip, ?_, by simp [Cell.kids, List.getElem?_map, hip]⟩
+    intro e; subst e
+    rw [hip] at hsy
+    exact hpn (by cases hsy; rfl)
+  · exact Or.inr hnew
+
+/-- … for a list whose slot `i` (which held `y`) is overwritten by `Set` / `MustSet` -/
+theorem list_set_detaches_deep {h : Heap} {rank : Addr → Nat} (hr : h.RankedBy rank) {root l y v : Addr}
+    (hs : SibSep h root) (hrl : Reach h root l) {xs : List Addr} (hg : h.get? l = some (.list xs))
+    {i : Nat} (hy : xs[i]? = some y) (hvy : Apart h v y) (hvl : ¬ Reach h v l) :
+    Apart (h.write l (.list (xs.set i v))) root y := by
+  refine cell_write_detaches_deep (sy := i) hr hs hrl hg hy ?_
+  intro k hkm
+  simp only [Cell.kids] at hkm
+  obtain ⟨j, hj⟩ := List.getElem?_of_mem hkm
+  by_cases hji : j = i
+  · subst hji
+    have hlt : j < xs.length := (List.getElem?_eq_some_iff.mp hy).1
+    rw [List.getElem?_set_self hlt] at hj
+    cases hj
+    exact Or.inr ⟨hvy, hvl⟩
+  · rw [List.getElem?_set_ne (Ne.symm hji)] at hj
+    exact Or.inl ⟨j, hji, hj⟩
+
+/-- … or which is cleared -/
+theorem list_clear_detaches_deep {h : Heap} {rank : Addr → Nat} (hr : h.RankedBy rank) {root l y : Addr}
+    (hs : SibSep h root) (hrl : Reach h root l) {xs : List Addr} (hg : h.get? l = some (.list xs))
+    {i : Nat} (hy : xs[i]? = some y) : Apart (h.write l (.list [])) root y :=
+  cell_write_detaches_deep (sy := i) hr hs hrl hg hy (fun k hkm => by simp [Cell.kids] at hkm)
+
+/-- `ListBuilder.Set` / `MustSet` / `Clear` on a list of the document detach the item that was stored
+    in the slot -/
+theorem listwrite_detaches {h h' : Heap} {rank : Addr → Nat} (hr : h.RankedBy rank) {root l y v : Addr}
+    (hs : SibSep h root) (hrl : Reach h root l) {xs : List Addr} (hg : h.get? l = some (.list xs))
+    {i : Nat} (hy : xs[i]? = some y) :
+    (Apart h v y → ¬ Reach h v l → Ytk.Heap.listSet h l i v = some h' → Apart h' root y) ∧
+    (Apart h v y → ¬ Reach h v l → listMustSetH h l i v = .ok h' → Apart h' root y) ∧
+    (listClear h l = some h' → Apart h' root y) := by
+  have hlt : i < xs.length := (List.getElem?_eq_some_iff.mp hy).1
+  refine ⟨fun hvy hvl he => ?_, fun hvy hvl he => ?_, fun he => ?_⟩
+  · simp only [Ytk.Heap.listSet, hg, Option.some.injEq] at he
+    subst he
+    have : i + 1 - xs.length = 0 := by omega
+    simp only [this, List.replicate_zero, List.append_nil]
+    exact list_set_detaches_deep hr hs hrl hg hy hvy hvl
+  · simp only [listMustSetH, hg, if_pos hlt, Outcome.ok.injEq] at he
+    subst he
+    exact list_set_detaches_deep hr hs hrl hg hy hvy hvl
+  · simp only [listClear, hg, Option.some.injEq] at he
+    subst he
+    exact list_clear_detaches_deep hr hs hrl hg hy
 
 /-- `RemoveAt(path)` / `AddValueAt(path, v)` whose walk ends in the existing container `x` and whose
     last component is a plain member name: the node `y` that `Lookup(path)` returned before is
